@@ -76,6 +76,9 @@ bool Sched::run(std::function<bool(int64_t)> world_step, std::function<void()> a
   K->on_block = [this](int64_t dl) { return poll_park(dl); };
   bool ok = true;
   Thread *last = nullptr;
+  int spin_count = 0, dead_spins = 0;
+  uint64_t spin_gen = 0;
+  int64_t spin_now = -1;
   for (;;) {
     // a violation inside a thread ends the run (the other threads stay parked)
     bool failed = false;
@@ -129,6 +132,18 @@ bool Sched::run(std::function<bool(int64_t)> world_step, std::function<void()> a
       if (after_each_switch) after_each_switch();
       continue;
     }
+    // A thread that keeps coming back without anything having changed (e.g. a timed wait whose timeout is already
+    // over, retried at once) would starve the world, which in reality moves while it spins: let the world step.
+    if (runnable.size() == 1 && runnable[0] == last && K->change_gen == spin_gen && K->now_us == spin_now) {
+      if (++spin_count > 200) {
+        stats.spins++;
+        spin_count = 0;
+        int64_t md = -1;
+        for (Thread *t : threads) if (t != last && t->st != Thread::DONE && t->deadline_us >= 0 && (md < 0 || t->deadline_us < md)) md = t->deadline_us;
+        if (!world_step(md)) { /* nothing else can happen: the spin is all there is */ if (++dead_spins > 50) { ok = false; deadlock_report = "a thread spins on a wait that returns at once while every other thread sleeps for ever"; break; } }
+        if (after_each_switch) after_each_switch();
+      }
+    } else { spin_count = 0; spin_gen = K->change_gen; spin_now = K->now_us; }
     // mostly let the thread that just ran continue (interleavings with few preemptions first), otherwise uniform
     Thread *pick = nullptr;
     if (last && rng.pct(50)) for (Thread *t : runnable) if (t == last) pick = t;
